@@ -23,7 +23,7 @@ from mc.core import Acc, rotate
 ID = "C20"
 LEVEL = "model_checking"
 ASSUMPTIONS = [
-    "one generated contract: setUp() stores s = 7, a value at the hash-valued constant slot keccak(0x1234) and creates an invariant target {inc, step}; tests: fail (x == 42), pass (infeasible), write (stores x then reads it), read (s must be 7), hash (keccak(0x1234) computed at run time), slot (reads the constant slot), reread (re-reads calldata after a branch; can never fail), five (same shape; fails exactly for x == 5), two invariant tests at depth 2",
+    "one generated contract: setUp() stores s = 7, a value at the hash-valued constant slot keccak(0x1234) and creates an invariant target {inc, step}; tests: fail (x == 42), pass (infeasible), write (stores x then reads it), read (s must be 7), hash (keccak(0x1234) computed at run time), slot (reads the constant slot), reread (re-reads calldata after a branch; can never fail), five (same shape; fails exactly for x == 5), two invariant tests at depth 2; loop (needs three loop iterations; the contract-level annotation says --loop 4) and ann (function-level annotation --loop 1)",
     "histories: every ordered subset of the tests up to the bound, every test doubled, the same history run twice in one process, three injective uid() generators (counter, reversed, multiplicative)",
     "normalised result = (exit code, path counts, number of counterexamples, validity flags, replay outcome of every valid counterexample, number of bounded loops); concrete model values are not compared (solvers may return any model), their replay on the reference EVM is",
     "solo results are additionally compared with a brute force over x in {0,1,5,7,42,2^256-1} on mc/refevm.py",
@@ -55,15 +55,21 @@ def contract():
     F["check_five(uint256)"] = e2e.if_then(X + [("push", 5), "EQ"], [], "a") + e2e.if_then(X + [("push", 5), "EQ"], e2e.panic(1), "b") + ["STOP"]
     F["invariant_a()"] = invgen.invariant_body(0, "s", "ne", 2)
     F["invariant_b()"] = invgen.invariant_body(0, "s", "ne", 5)
-    return e2e.Contract("Iso", F), t
+    # configuration layers: the contract says --loop 4, check_ann() alone says --loop 1; check_loop needs three iterations
+    # n = x & 3; i = 0; while (i < n) i++; assert(i != 3)
+    n = X + [("push", 3), "AND"]
+    F["check_loop(uint256)"] = ["PUSH0", ("label", "top")] + n + ["DUP2", "LT", "ISZERO", ("ref", "exit"), "JUMPI", ("push", 1), "ADD", ("ref", "top"), "JUMP", ("label", "exit")] + \
+        e2e.if_then(["DUP1", ("push", 3), "EQ"], e2e.panic(1), "f") + ["STOP"]
+    F["check_ann(uint256)"] = e2e.if_then(X + [("push", 1), "EQ"], e2e.panic(1), "a") + ["STOP"]
+    return e2e.Contract("Iso", F, natspec="@custom:halmos --loop 4", devdoc={"check_ann(uint256)": "--loop 1"}), t
 
 
 TESTS = ["check_fail(uint256)", "check_pass(uint256)", "check_write(uint256)", "check_read(uint256)", "check_hash(uint256)", "check_slot(uint256)",
-         "check_reread(uint256)", "check_five(uint256)", "invariant_a()", "invariant_b()"]
+         "check_reread(uint256)", "check_five(uint256)", "invariant_a()", "invariant_b()", "check_loop(uint256)", "check_ann(uint256)"]
 # ground truth: the inputs (of the brute-force domain) that make each regular test fail
 DOM = [0, 1, 5, 7, 42, 2**256 - 1]
 EXPECT_FAIL = {"check_fail(uint256)": [42], "check_pass(uint256)": [], "check_write(uint256)": [5], "check_read(uint256)": [], "check_hash(uint256)": [1],
-               "check_slot(uint256)": [], "check_reread(uint256)": [], "check_five(uint256)": [5]}
+               "check_slot(uint256)": [], "check_reread(uint256)": [], "check_five(uint256)": [5], "check_loop(uint256)": [7, 2**256 - 1], "check_ann(uint256)": [1]}
 EXPECT_INV = {"invariant_a()": 1, "invariant_b()": 0}  # at depth 2: s reaches 2 (inc, inc) -> a fails; 5 needs inc, inc, step -> b passes
 
 
